@@ -201,6 +201,14 @@ Definition C33_check (e : env) (tr : list ev) (res : result) : bool :=
   order_ok (deps e) [] tr && put_last tr && noop_ok tr &&
   Bool.eqb (is_ok res) (success_shape tr) && negb (existsb is_bad tr).
 
+(* ---- the origin's side, observed: for every replicate request that reached a real origin, the
+   status it answered and whether, DURING THAT REQUEST, the origin handed the blob to the remote
+   cluster and the remote cluster accepted it.  "200 => uploaded" on one observed run. *)
+Definition C33_uploads_check (ups : list (N * bool)) : bool :=
+  forallb (fun p => implb (fst p =? 200) (snd p)) ups.
+Definition observed_of (hs : list hstate) : list (N * bool) :=
+  map (fun h => (handler h, uploaded h)) hs.
+
 (* ---- comparison of observables *)
 Definition resp_eqb (a b : resp) : bool :=
   match a, b with
